@@ -74,23 +74,51 @@ def run(tier, seed, threads, ev_path, scale, build):
     os.makedirs(FOUND, exist_ok=True)
     os.makedirs(EVID + '/parts', exist_ok=True)
     results = []
+    died = []
     bins = {}
     for name, b, extra in CONFIGS:
         bins[name] = (build(b), extra)
         part = '%s/parts/C17.%s.json' % (EVID, b + ('-scalar' if '--force-skip-fast' in extra else ''))
         args = [bins[name][0], 'run', 'C17', '--seed', str(seed), '--threads', str(threads), '--runs', str(n), '--replay-dir', FOUND,
                 '--known', VERIF + '/known_findings.json', '--substrate', name, '--tier', tier, '--stats-out', part] + extra
-        p = subprocess.run(args, stdout=subprocess.PIPE, text=True)
-        if p.returncode not in (0, 1):
+        note = part + '.death'
+        if os.path.exists(note):
+            os.remove(note)
+        p = subprocess.run(args + ['--death-note', note], stdout=subprocess.PIPE, stderr=subprocess.PIPE, text=True)
+        if p.returncode not in (0, 1, 2):
+            # the code under test killed the process (unsafe-precondition check, segfault)
+            tail = ' | '.join([l for l in p.stderr.strip().splitlines() if l.strip()][-3:])[:300]
+            say('%-45s killed by the code under test: %s' % (name, tail))
+            died.append((name, open(note).read().split() if os.path.exists(note) else None, tail))
+            continue
+        if p.returncode != 0 and p.returncode != 1:
             sys.stdout.write(p.stdout)
+            sys.stderr.write(p.stderr)
             sys.stderr.write('HARNESS ERROR: C17 run failed on configuration %s\n' % name)
             return 2
         j = json.load(open(part))
         results.append((name, j))
         say('%-45s %d runs, %d converter calls, transcript digest %s' % (name, j['coverage']['evaluations'], j['coverage']['converter_calls'], j['coverage']['transcript_digest']))
-    base_name, base = results[0]
     rc = 0
     replays = []
+    if died:
+        default_died = not results or results[0][0] != CONFIGS[0][0]
+        if not results:
+            sys.stderr.write('HARNESS ERROR: every configuration is killed by the code under test (memory-safety checks abort the process: that is C06\'s to report - ./check C06); C17 cannot compare builds\n')
+            return 2
+        # some builds die where the default build does not: that is a behavioural difference between builds
+        for name, note, tail in ([] if default_died else died):
+            idx = int(note[2]) if note else -1
+            path = '%s/C17-build-killed-%d-%d.json' % (FOUND, seed, idx)
+            detail = 'configuration "%s" kills the process in run %d (%s) while "%s" completes the same runs' % (name, idx, tail, CONFIGS[0][0])
+            with open(path, 'w') as f:
+                json.dump({'format': 1, 'kind': 'build-killed', 'property': 'C17', 'oracle': 'build-killed-process', 'detail': detail, 'verif_seed': seed, 'run_index': idx,
+                           'configs': [CONFIGS[0][0], name], 'violation_line': 'VIOLATION property=C17 replay=%s' % path}, f, indent=1)
+            say('violation: ' + detail)
+            say('VIOLATION property=C17 replay=%s' % path)
+            replays.append(path)
+            rc = 1
+    base_name, base = results[0]
     for name, j in results[1:]:
         if j['coverage']['transcript_digest'] == base['coverage']['transcript_digest']:
             continue
@@ -115,6 +143,9 @@ def run(tier, seed, threads, ev_path, scale, build):
         say('VIOLATION property=C17 replay=%s' % path)
         replays.append(path)
         rc = 1
+    if died and results[0][0] != CONFIGS[0][0] and rc == 0:
+        sys.stderr.write('HARNESS ERROR: the default configuration is killed by the code under test (memory-safety checks abort the process: that is C06\'s to report - ./check C06) and the surviving configurations agree; C17 cannot say more\n')
+        return 2
     # evidence
     cov = dict(base['coverage'])
     cov['evaluations_per_configuration'] = base['coverage']['evaluations']
@@ -142,6 +173,18 @@ def replay(path, build):
     j = json.load(open(path))
     names = j['configs']
     cfg = {c[0]: c for c in CONFIGS}
+    if j.get('kind') == 'build-killed':
+        outcomes = []
+        for n in names:
+            _, b, extra = cfg[n]
+            p = subprocess.run([build(b), 'trace', 'C17', '--seed', str(j['verif_seed']), '--run', str(j['run_index'])] + extra, stdout=subprocess.PIPE, stderr=subprocess.PIPE, text=True)
+            outcomes.append(p.returncode)
+        if (outcomes[0] == 0) != (outcomes[1] == 0):
+            say('reproduced: run %d exits with status %d under "%s" but %d under "%s"' % (j['run_index'], outcomes[0], names[0], outcomes[1], names[1]))
+            say('VIOLATION property=C17 replay=%s' % path)
+            return 1
+        say('replay of %s: both configurations behave alike on this tree' % path)
+        return 0
     ts = []
     for n in names:
         _, b, extra = cfg[n]
